@@ -13,6 +13,7 @@ rounding, ties, cancellation, correctness of eigh/randomized_svd inside
 pcovr_covariance.
 """
 from ..harness import arr, index, integer, scalar
+from .. import tq
 from ..interp import State
 from ..terms import Dim, T, const, vconst
 
@@ -151,7 +152,6 @@ def _init_checks(ctx, N, cls, pkg, axis, S, name, pcov):
         ctx.ob("R-INIT", f"{name}.{pkg}.every initial index goes through the distance update[{vname}]", len(ups) == want_n, f"{len(ups)} distance updates for {want_n} initial indices", site, cfg)
         if vname in ("int", "list2"):
             t = repr(sel.term)
-            ok = "i0" in t and (vname != "list2" or "i1" in t)
             # exact: selected_idx_ = zeros with slot k := i_k
             want = T("store", T("astype", T("zeros", T("dim", Dim.of("S"))), "int"), const(0), i0.term)
             if vname == "list2":
@@ -166,7 +166,7 @@ def _init_checks(ctx, N, cls, pkg, axis, S, name, pcov):
             if sel is not None:
                 from ..apitable import dim_term
 
-                ok = f"'randint', ({dim_term(Dim.of(S))!r}" in repr(sel.term).replace('"', "'") or ("randint" in repr(sel.term) and S in repr(sel.term))
+                ok = any(x.op == "rng" and x.args[1] == "randint" and x.args[2] and x.args[2][0] == dim_term(Dim.of(S)) for x in tq.walk_all(sel.term))
                 ctx.ob("R-INIT", f"{name}.{pkg}.randint bound is the size of the selection axis", ok, f"selected_idx_ = {sel.term!r}", site, cfg)
 
 
@@ -186,7 +186,7 @@ def _argmax_check(ctx):
     sc = V("func", T("scorer"), func=("builtin", scorer, "scorer"))
     r = ctx.call_method(I, st, o, "_get_best_new_selection", sc, arr("X", "N", "M"), arr("y", "N", "P"))
     t = r.term
-    ok = t.op == "argmax" and "argmin" not in repr(t)
+    ok = t.op == "argmax" and not tq.has_op(t, "argmin")
     ctx.ob("R-ARGMAX", "GreedySelector._get_best_new_selection returns argmax of the (masked) score vector", ok, f"returns {t!r}", ctx.site(m))
     # the argument of argmax is the scorer's vector with only selected entries masked
     inner = t.args[0] if ok else None
